@@ -69,6 +69,11 @@ struct Run {
 			}
 			if (g.coin()) std::swap(a, b);
 			binary(a, b);
+			if ((i & 63) == 0) {
+				// unary minus exactly at and next to maxneg: Modulo wraps to maxneg, Saturate clamps to maxpos
+				Big mn = Big::pow2(nbits - 1);
+				unary(mn); unary(mn.plus(1, nbits)); unary(Big::ones(nbits - 1));
+			}
 			if ((i & 3) == 0) {
 				unary(a);
 				int k = int(g.below(2 * nbits + 3)) - int(nbits) - 1;
